@@ -2,6 +2,8 @@ SPECIFICATION TraceSpec
 CONSTANTS Design = "copy"
           StopPolicy = "drain"
           Creation = "defaults"
+          IdleSlack = 60
+          MinPeriod = 20
 CONSTRAINT Hwm
 POSTCONDITION TraceAccepted
 CHECK_DEADLOCK FALSE
